@@ -519,6 +519,61 @@ example : ((ephRun ([[⟨[1], [10]⟩, ⟨[1], [11]⟩], [⟨[1], [20]⟩]].map 
     some [⟨none, some [20], 1⟩] :=
   c14_eph_connection_alone [[⟨[1], [10]⟩, ⟨[1], [11]⟩], [⟨[1], [20]⟩]] [0, 1, 0] 1 [⟨[1], [20]⟩] rfl (by decide)
 
+/-! ### Panics of user-supplied code and the write mutex -/
+
+/-- After ANY request — whatever its handler returns, and a panic of user code at ANY position
+(arguments' Read, middleware before / after, handler, result's Write after any number of
+writes) — the write mutex is free, and the request itself did not wait for it. -/
+theorem c14_panic_leaves_no_lock_held (pm : ProcMap) (r : MuReq) :
+    (serveOne .deferred pm false r).2 = false ∧ (serveOne .deferred pm false r).1 ≠ .blocked := by
+  unfold serveOne
+  cases r.panicAt with
+  | none => simp
+  | some p =>
+    by_cases h1 : panicReached pm r p = true
+    · by_cases h2 : p.underMutex = true <;> simp [h1, h2]
+    · simp [h1]
+
+/-- Serving from a free mutex is compositional. -/
+theorem c14_serveAll_append (pm : ProcMap) (pre : List MuReq) (post : List MuReq) :
+    serveAll .deferred pm false (pre ++ post) = serveAll .deferred pm false pre ++ serveAll .deferred pm false post := by
+  induction pre with
+  | nil => rfl
+  | cons r t ih =>
+    simp only [List.cons_append, serveAll, (c14_panic_leaves_no_lock_held pm r).1, ih]
+
+/-- … hence after ANY history on ONE shared processor (other connections, other messages; outcomes ok,
+error, panic at any position) a request that does not itself panic gets exactly the answer
+`process` gives it alone. -/
+theorem c14_after_any_outcome_next_is_answered (pm : ProcMap) (pre post : List MuReq) (r : MuReq)
+    (hr : r.panicAt = none) :
+    (serveAll .deferred pm false (pre ++ r :: post))[pre.length]? = some (.returned (process pm r.rq r.ho)) := by
+  rw [c14_serveAll_append]
+  have hl : (serveAll .deferred pm false pre).length = pre.length := by
+    induction pre with
+    | nil => rfl
+    | cons a t ih => simp only [serveAll, (c14_panic_leaves_no_lock_held pm a).1, List.length_cons, ih]
+  rw [List.getElem?_append_right (by omega), hl]
+  simp [serveAll, serveOne, hr]
+
+/-- Why the release must be deferred: with `Lock(); write; Unlock()` instead, ONE request whose
+result panics while being written leaves the mutex locked and the next request waits for ever. -/
+theorem c14_manual_unlock_would_wedge :
+    serveAll .manual exPm false
+      [⟨exReq [112] true, .success [1], some (.resultWrite 2)⟩, ⟨exReq [112] true, .success [2], none⟩] =
+      [.panicked, .blocked] := by
+  simp [serveAll, serveOne, panicReached, takesMutex, process, methodReply, mkReply, exReq, exHdrs, exPm,
+    ProcMap.add, ProcMap.find?, Hdrs.get?, PanicPos.underMutex, opIdHeader, cidHeader]
+
+-- non-vacuity: panics at every position followed by an ordinary request
+example : (serveAll .deferred exPm false
+      [⟨exReq [112] true, .success [1], some (.resultWrite 2)⟩, ⟨exReq [112] true, .other, some .handler⟩,
+       ⟨exReq [112] true, .success [1], some .argsRead⟩, ⟨exReq [112] true, .success [2], none⟩])[3]? =
+    some (.returned (process exPm (exReq [112] true) (.success [2]))) :=
+  c14_after_any_outcome_next_is_answered exPm
+    [⟨exReq [112] true, .success [1], some (.resultWrite 2)⟩, ⟨exReq [112] true, .other, some .handler⟩,
+     ⟨exReq [112] true, .success [1], some .argsRead⟩] [] ⟨exReq [112] true, .success [2], none⟩ rfl
+
 /-- **Lock discipline behind the model's atomic steps** (processor write mutex, NATS server send mutex), decided by the kernel on facts
 REGENERATED from lib/go's source on every check (harness/locks → FV/Generated/Locks.lean): no function
 calls, while it holds one of these mutexes, anything that (transitively) acquires the same mutex, no
@@ -543,5 +598,22 @@ started inside a `for` body uses a variable that is declared outside the loop an
 what makes "one goroutine per accepted connection, each serving ITS connection" (the per-connection model
 `FV.Proc.srvRun`, `c14_connections_independent`) a faithful reading of `acceptLoop`. -/
 theorem c14_no_loop_shared_goroutine_variable : FV.Generated.Locks.loopShares = [] := by decide
+
+/-- **Fields are written under their lock** (regenerated from lib/go on every check): no method writes a field
+of a mutex-holding struct (the processor's shared state) while no mutex of that struct is write-held — by assignment, `++`, `delete` or an
+atomic store — unless the site is one of the hand-classified set-up / single-owner sites of
+`known/locks_unguarded_expected.txt`. The atomic-step models read and write such state in ONE critical section;
+a value computed from a read under the lock and stored after it was released (a lazily filled cache) is a lost
+update the models cannot exhibit and the race detector does not see. -/
+theorem c14_fields_written_under_lock :
+    FV.Locks.writesGuarded [5] FV.Generated.Locks.unguardedUnexpected = true := by decide +kernel
+
+/-- **Locks held across calls are released by defer** (regenerated from lib/go on every check): no function calls
+anything while it holds a mutex that only a hand-written `Unlock` releases, except the hand-classified callees that
+cannot panic (`manual:` lines of `known/locks_unguarded_expected.txt`). The models release a mutex on EVERY exit of
+a critical section, a panic included — the servers recover panics of user-supplied code and keep serving, so a
+hand-released mutex would stay locked and every later request behind it would go unanswered. -/
+theorem c14_locks_released_by_defer :
+    FV.Locks.releasedByDefer [5] FV.Generated.Locks.manualUnexpected = true := by decide +kernel
 
 end FV.C14
